@@ -80,6 +80,12 @@ def run_history(ops):
                 else:
                     pp.register_pretty(cls)(shared[(k, op[1])])
                     req.append('(rc %d %d)' % (op[1], pid))
+            elif k == 'rnF':
+                # a printer that is a callable OBJECT which is falsy (it has a length of 0), registered by name
+                pid = 100 + i
+                cls = lat[op[1]]
+                pp.register_pretty(cls.__module__ + '.' + cls.__qualname__)(FalsyPrinter('P%d' % pid))
+                req.append('(rn %d %d)' % (op[1], pid))
             elif k == 'rp':
                 pid = 100 + i
                 q = op[1]
@@ -125,7 +131,7 @@ def spec_trace(ops):
     out = []
     for i, op in enumerate(ops):
         k = op[0]
-        if k in ('rc', 'rn'):
+        if k in ('rc', 'rn', 'rnF'):
             latest[op[1]] = 100 + i
         elif k in ('rnS', 'rcS'):
             latest[op[1]] = (900 if k == 'rnS' else 950) + op[1]
@@ -162,8 +168,19 @@ ALPHABET = ([('rc', c) for c in (1, 2, 3)] + [('rn', c) for c in (1, 2, 3)] + [(
 
 PRED_ALPHABET = [('rp', 7), ('rp', 8), ('rs', 7), ('pr', 5, (7,)), ('pr', 5, (8,)), ('pr', 5, (7, 8)), ('pr', 2, (8, 7))]
 
+class FalsyPrinter:
+    def __init__(self, tag):
+        self.tag = tag
+
+    def __call__(self, value, ctx):
+        return self.tag
+
+    def __len__(self):
+        return 0
+
+
 # the same printer function registered repeatedly, by name and directly, around prints that promote pending entries
-SHARED_ALPHABET = [('rnS', 2), ('rcS', 2), ('rn', 2), ('rc', 2), ('rnS', 1), ('pr', 2, ()), ('pr', 4, ()), ('q', 2, (1, 1, 1))]
+SHARED_ALPHABET = [('rnS', 2), ('rcS', 2), ('rn', 2), ('rc', 2), ('rnS', 1), ('rnF', 1), ('pr', 2, ()), ('pr', 4, ()), ('q', 2, (1, 1, 1)), ('q', 4, (1, 1, 0))]
 
 _drv = None
 
@@ -218,8 +235,8 @@ def registry_section(tier, seed):
     for n in range(1, (4 if tier == 'quick' else 5) + 1):
         hist_pred.extend(itertools.product(PRED_ALPHABET, repeat=n))
     hist.extend(hist_pred)
-    for n in range(1, (5 if tier == 'quick' else 6) + 1):
-        hist.extend(h for h in itertools.product(SHARED_ALPHABET, repeat=n) if any(o[0] in ('rnS', 'rcS') for o in h) and h[-1][0] in ('pr', 'q'))
+    for n in range(1, (4 if tier == 'quick' else 5) + 1):
+        hist.extend(h for h in itertools.product(SHARED_ALPHABET, repeat=n) if any(o[0] in ('rnS', 'rcS', 'rnF') for o in h) and h[-1][0] in ('pr', 'q'))
     for _ in range(n_rand // 4):
         k = rng.randint(5, 15)
         hist.append(tuple(rng.choice(PRED_ALPHABET + ALPHABET[:8]) for _ in range(k)))
